@@ -135,6 +135,36 @@ def build(cfg, values=None):
                 KG = p1.calc_kG0(c=c0, nx=nq, ny=nq, silent=True).todict()
                 for k, v in sorted(KG.items()):
                     obs.append(('kG-numeric-zero-state[%d,%d]' % k, v, 0))
+        elif rel == 'i':
+            # hierarchical (nested) trial spaces: the matrices of orders (m, n) are the principal sub-matrices of those of orders
+            # (m+1, n) and (m, n+1) under the dof numbering  num*(j*m + i) + component  -- the mechanism behind the monotone
+            # convergence of the Ritz eigenvalues (C15, which itself is not decided)
+            model = cfg['model']
+            num = 3
+            pa = common(ctx.new_panel(model, m, n))
+            if model == 'kpanel':
+                ctx.override_sections(1)
+            for (dm, dn) in ((1, 0), (0, 1)):
+                pb = common(ctx.new_panel(model, m + dm, n + dn))
+                for nm in list(pa.__dict__):
+                    if len(nm) == 4 and nm[0] in 'uvw' and nm[3] in 'xy':
+                        setattr(pb, nm, getattr(pa, nm))
+                A, B = mats(pa, which), mats(pb, which)
+
+                def up(idx):
+                    comp, ij = idx % num, idx // num
+                    j, i = divmod(ij, m)
+                    return num * (j * (m + dm) + i) + comp
+                for (r, c_), v in sorted(A.items()):
+                    obs.append(('%s-nested-in-(%+d,%+d)[%d,%d]' % (which, dm, dn, r, c_), B.get((up(r), up(c_)), 0), v))
+                small = {(up(r), up(c_)) for (r, c_) in A}
+                size_a = num * m * n
+                for (r, c_), v in sorted(B.items()):
+                    # entries of the larger matrix between old amplitudes that the smaller one does not have must vanish
+                    if (r, c_) not in small:
+                        inv = {up(k): k for k in range(size_a)}
+                        if r in inv and c_ in inv:
+                            obs.append(('%s-nested-extra-entry-(%+d,%+d)[%d,%d]' % (which, dm, dn, r, c_), v, 0))
         elif rel == 'h':
             # explicit placement (size, row0, col0) describes the same matrix as the default placement, shifted -- with a constant
             # pre-load in k0
@@ -273,6 +303,8 @@ def configs(tier, seed):
             out.append({'rel': 'b', 'm': 5, 'n': 4, 'which': which, 'group': '(b) cylinder(1/r=0)=plate:%s' % which})
     for model in ('plate', 'cpanel'):
         out.append({'rel': 'd', 'm': 2, 'n': 2, 'which': 'k0', 'model': model, 'nq': 8, 'group': '(d) numeric=analytic:%s' % model, 'kG': True})
+        for which in ('k0', 'kG0', 'kM'):
+            out.append({'rel': 'i', 'm': 2, 'n': 2, 'which': which, 'model': model, 'group': '(i) nested trial spaces:%s:%s' % (which, model)})
         out.append({'rel': 'h', 'm': 2, 'n': 1, 'which': 'k0', 'model': model, 'off': 2, 'group': '(h) explicit placement = default placement:%s' % model})
         out.append({'rel': 'g', 'm': 1, 'n': 2, 'which': 'k0', 'model': model, 'nxy': (1, 2), 'group': '(g) integration points as arguments = as attributes:%s' % model})
         out.append({'rel': 'd', 'm': 2, 'n': 1, 'which': 'k0', 'model': model, 'nq': 8, 'ortho': True, 'group': '(d) numeric=analytic force_orthotropic:%s' % model})
